@@ -52,6 +52,7 @@ func c10Exec(r *vf.Run, k c10Case) []finding {
 	}
 	if k.FromName != "" {
 		if err := m.FromFormat(k.FromName, "sender@snd.example"); err != nil {
+			r.Outcome("skipped/setter-refused")
 			return nil // setter refused: nothing to round-trip
 		}
 	}
@@ -70,6 +71,7 @@ func c10Exec(r *vf.Run, k c10Case) []finding {
 		if strings.HasPrefix(f.key, "content/qp-bare-CR") {
 			continue
 		}
+		r.Outcome("skipped/first-rendering-unfaithful/" + strings.SplitN(f.key, "/", 2)[0])
 		return nil // C01's business; C10 quantifies over messages whose rendering is right
 	}
 	var parsed *mail.Msg
@@ -254,9 +256,12 @@ func c10Specs(thorough bool) []c10Case {
 	texts := [][]byte{[]byte("plain ascii text\r\nsecond line\r\n"), []byte("a=b and =3D literal\r\n.dot\r\n"), []byte("ünïcode ✓ text\r\n"), []byte("no trailing newline"), []byte(repeatTo("long line ", 180) + "\r\n"), []byte("lf only\nlines\n")}
 	htmls := [][]byte{[]byte("<html><body><p>hi</p></body></html>\r\n"), []byte("<p>a=b ünï</p>\r\n")}
 	bins := [][]byte{[]byte("attached text\r\n"), c12Bin, {}, []byte("x")}
-	names := []string{"a.txt", "a b.txt", "ä.txt", "a;b.txt", "a=b.txt", "report-2024.pdf"}
-	subjects := []string{"plain subject", "sübject with ümlaut", repeatTo("eighty character subject ", 80), "comma, in subject", "Re: [list] something?"}
-	dnames := []string{"", "Plain Name", "Ünï Näme", repeatTo("Long Name ", 80), "Last, First"}
+	names := []string{"a.txt", "a b.txt", "ä.txt", "a;b.txt", "a=b.txt", "report-2024.pdf",
+		"очень-длинное-имя-файла-с-отчётом-за-год.txt", "日本語のとても長いファイル名のテストです資料.pdf", repeatTo("long-ascii-file-name-", 90) + ".bin",
+		"ünï cödé with blanks and (parens) & more.dat", "semi;colon=equals and, comma.txt", "name.with.many.dots.tar.gz", "UPPER lower 123.TXT", "tab\tname.txt", "percent%20name.txt", "'single' quotes.txt"}
+	subjects := []string{"plain subject", "sübject with ümlaut", repeatTo("eighty character subject ", 80), "comma, in subject", "Re: [list] something?",
+		repeatTo("длинная тема письма ", 150), "tab\there", "trailing blank ", "\"quoted\" subject", "=?looks?like?="}
+	dnames := []string{"", "Plain Name", "Ünï Näme", repeatTo("Long Name ", 80), "Last, First", repeatTo("Очень Длинное Имя ", 120), "O'Brien \"Bob\"", "back\\slash"}
 	encs := []string{"qp", "b64", "8bit", "usascii"}
 	var cs []c10Case
 	n := 0
@@ -297,6 +302,39 @@ func c10Specs(thorough bool) []c10Case {
 						cs = append(cs, c10Case{Spec: s, FromName: dnames[n%len(dnames)], ToName: dnames[(n/2)%len(dnames)]})
 					}
 				}
+			}
+		}
+	}
+	// every file name as attachment and as embed, in every message encoding
+	for ni, nm := range names {
+		for _, menc := range encs {
+			for _, kind := range []int{0, 1, 2} {
+				s := mb.Msg{Enc: menc, Parts: []mb.Part{{Type: "text/plain", Content: texts[0]}}}
+				f := mb.File{Name: nm, Content: bins[ni%len(bins)]}
+				switch kind {
+				case 0:
+					s.Attach = []mb.File{f}
+				case 1:
+					s.Embeds = []mb.File{f}
+				default:
+					s.Parts = append(s.Parts, mb.Part{Type: "text/html", Content: htmls[0]})
+					s.Attach = []mb.File{f, {Name: names[(ni+5)%len(names)], Content: bins[1]}}
+					s.Embeds = []mb.File{{Name: names[(ni+9)%len(names)], Content: bins[3]}}
+				}
+				sub := subjects[ni%len(subjects)]
+				s.Subject = &sub
+				cs = append(cs, c10Case{Spec: s, FromName: dnames[ni%len(dnames)], ToName: dnames[(ni+2)%len(dnames)]})
+			}
+		}
+	}
+	// every subject × display name combination on the alternative+attachment shape
+	for si := range subjects {
+		for di := range dnames {
+			for dj := range dnames {
+				s := mb.Msg{Parts: []mb.Part{{Type: "text/plain", Content: texts[si%len(texts)]}, {Type: "text/html", Content: htmls[di%2]}}, Attach: []mb.File{{Name: names[(si+di)%len(names)], Content: bins[dj%len(bins)]}}}
+				sub := subjects[si]
+				s.Subject = &sub
+				cs = append(cs, c10Case{Spec: s, FromName: dnames[di], ToName: dnames[dj]})
 			}
 		}
 	}
